@@ -164,8 +164,74 @@ let my_variant (name : string) : mysql_variant =
       mv_co2ch = tbl co_maria }
   | v -> failwith ("mysql variant " ^ v)
 
+(* round 5: realm level (DiffRealm.v) *)
+let parse_schema_x () =
+  let cs = next_opt () in
+  let co = next_opt () in
+  let cm = next_opt () in
+  let s = parse_schema () in
+  { sx_schema = s; sx_charset = cs; sx_collate = co; sx_comment = cm }
+
+let parse_realm () =
+  let cs = next_opt () in
+  let co = next_opt () in
+  let n = next_int () in
+  let ss = times n parse_schema_x in
+  { r_charset = cs; r_collate = co; r_schemas = ss }
+
+let show_sattr = function
+  | SAddAttr (a, v) -> "+A(" ^ k a ^ ":" ^ hexb v ^ ")"
+  | SModifyAttr (a, v1, v2) -> "~A(" ^ k a ^ ":" ^ hexb v1 ^ ">" ^ hexb v2 ^ ")"
+
+let show_rchange = function
+  | AddSchema n -> "+S(" ^ raw n ^ ")"
+  | DropSchema n -> "-S(" ^ raw n ^ ")"
+  | ModifySchema (n, cs) -> "~S(" ^ raw n ^ "){" ^ String.concat "," (Stdlib.List.map show_sattr cs) ^ "}"
+  | InSchema (n, c) -> raw n ^ "/" ^ show_schange c
+
+let rskip_of_mask (m : int) (t : rtag) : bool =
+  match t with
+  | RtAddSchema -> m land 8192 <> 0
+  | RtDropSchema -> m land 16384 <> 0
+  | RtModifySchema -> m land 32768 <> 0
+  | RtTag t -> skip_of_mask m t
+
+(* one realm case: <id> R|X <dialect> <mask> <realm> <realm>; X = SchemaDiff of the first schemas *)
+let process_realm line =
+  toks := Array.of_list (Stdlib.List.filter (fun s -> s <> "") (String.split_on_char ' ' line));
+  pos := 0;
+  let id = next () in
+  let op = next () in
+  let dialect = next () in
+  let mask = next_int () in
+  let from = parse_realm () in
+  let to_ = parse_realm () in
+  let rskip = rskip_of_mask mask in
+  let realm_diff, schema_diff_x = match dialect with
+    | "sqlite" -> sqlite_realm_diff, sqlite_schema_diff_x
+    | "mysql" -> let v = my_variant "default" in mysql_realm_diff_v v, mysql_schema_diff_x_v v
+    | "postgres" -> pg_realm_diff_ns [], pg_schema_diff_x_ns []
+    | "postgres-ns" -> pg_realm_diff_ns (bytes_of_string "public"), pg_schema_diff_x_ns (bytes_of_string "public")
+    | d -> failwith ("dialect " ^ d) in
+  let res = match op with
+    | "R" -> realm_diff rskip from to_
+    | "X" ->
+      (match from.r_schemas, to_.r_schemas with
+       | s1 :: _, s2 :: _ -> schema_diff_x rskip from s1 s2
+       | _ -> None)
+    | o -> failwith ("op " ^ o) in
+  let obs = match res with
+    | None -> "err"
+    | Some [] -> "[]"
+    | Some cs -> String.concat ";" (Stdlib.List.map show_rchange cs) in
+  id ^ " " ^ obs ^ "\n"
+
 let () =
   let dialect = if Array.length Sys.argv > 1 then Sys.argv.(1) else "sqlite" in
+  if dialect = "realm" then begin
+    (try while true do let l = input_line stdin in if l <> "" then print_string (process_realm l) done with End_of_file -> ());
+    exit 0
+  end;
   let schema_diff, table_diff = match dialect with
     | "sqlite" -> sqlite_schema_diff, sqlite_table_diff
     | "mysql" -> let v = my_variant "default" in mysql_schema_diff_v v, mysql_table_diff_v v
